@@ -595,6 +595,9 @@ func (a *DenseInt16Matrix) UnmarshalJSON(data []byte) error {
   if err := json.Unmarshal(data, &r); err != nil {
     return err
   }
+  if r.Rows < 0 || r.Cols < 0 || r.Rows*r.Cols != len(r.Values) {
+    return fmt.Errorf("invalid json matrix representation: number of values does not match the dimensions")
+  }
   a.values = r.Values
   a.rows = r.Rows
   a.rowMax = r.Rows
